@@ -97,6 +97,91 @@ fn clearly(kind: u8, a: Id, b: Id) -> Option<bool> {
     Some(match kind { 0 => x < y, 1 => x <= y, _ => false })
 }
 
+// ---- AC-canonical form: equality of terms modulo associativity / commutativity of + and *, placement of
+// negations, a/(b*c) = a/b/c and (a*b)/c = a*(b/c). Solver-free and sound over the reals (every rewrite is an
+// identity of real arithmetic; no constant is ever combined with another). Used to compare the code's term with an
+// independently transcribed specification whose operand order differs, and to recognise a comparison the code has
+// already decided on this path when the specification asks the same question with re-ordered operands.
+#[derive(Clone, PartialEq, Eq, Hash, PartialOrd, Ord, Debug)]
+enum CNode {
+    Leaf(String),
+    Sum(Vec<(bool, u32)>),
+    Prod(Vec<(bool, u32)>),
+    App(&'static str, Vec<(bool, u32)>),
+}
+#[derive(Default)]
+struct Canon { nodes: Vec<CNode>, index: HashMap<CNode, u32>, memo: HashMap<Id, (bool, u32)> }
+thread_local! { static CANON: RefCell<Canon> = RefCell::new(Canon::default()); }
+fn cmk(n: CNode) -> u32 {
+    CANON.with(|c| { let mut c = c.borrow_mut(); if let Some(i) = c.index.get(&n) { return *i; } let i = c.nodes.len() as u32; c.nodes.push(n.clone()); c.index.insert(n, i); i })
+}
+pub fn canon_reset() { CANON.with(|c| *c.borrow_mut() = Canon::default()); }
+fn collect_sum(i: Id, neg: bool, out: &mut Vec<(bool, u32)>) {
+    match node(i) {
+        Node::Add(a, b) => { collect_sum(a, neg, out); collect_sum(b, neg, out); }
+        Node::Sub(a, b) => { collect_sum(a, neg, out); collect_sum(b, !neg, out); }
+        Node::Neg(a) => collect_sum(a, !neg, out),
+        _ => { let (n, c) = canon(i); out.push((neg ^ n, c)); }
+    }
+}
+fn collect_prod(i: Id, inv: bool, neg: &mut bool, out: &mut Vec<(bool, u32)>) {
+    match node(i) {
+        Node::Mul(a, b) => { collect_prod(a, inv, neg, out); collect_prod(b, inv, neg, out); }
+        Node::Div(a, b) => { collect_prod(a, inv, neg, out); collect_prod(b, !inv, neg, out); }
+        Node::Neg(a) => { *neg = !*neg; collect_prod(a, inv, neg, out); }
+        _ => { let (n, c) = canon(i); *neg ^= n; out.push((inv, c)); }
+    }
+}
+/// (negated?, canonical id)
+pub fn canon(i: Id) -> (bool, u32) {
+    if let Some(r) = CANON.with(|c| c.borrow().memo.get(&i).cloned()) { return r; }
+    use Node::*;
+    let un = |tag: &'static str, xs: &[Id]| -> (bool, u32) { (false, cmk(CNode::App(tag, xs.iter().map(|x| canon(*x)).collect()))) };
+    let r = match node(i) {
+        Var(n) => (false, cmk(CNode::Leaf(format!("v:{}", n)))),
+        Const(b) => { let v = f64::from_bits(b); if v < 0.0 { (true, cmk(CNode::Leaf(format!("c:{:x}", (-v).to_bits())))) } else { (false, cmk(CNode::Leaf(format!("c:{:x}", v.to_bits())))) } }
+        Pi => (false, cmk(CNode::Leaf("pi".into()))),
+        Tol(a, b) => (false, cmk(CNode::Leaf(format!("tol:{:x}:{:x}", a, b)))),
+        True => (false, cmk(CNode::Leaf("true".into()))),
+        False => (false, cmk(CNode::Leaf("false".into()))),
+        Add(..) | Sub(..) => {
+            let mut ts = Vec::new(); collect_sum(i, false, &mut ts); ts.sort();
+            (false, cmk(CNode::Sum(ts)))
+        }
+        Neg(a) => { let (n, c) = canon(a); (!n, c) }
+        Mul(..) | Div(..) => {
+            let mut fs = Vec::new(); let mut neg = false; collect_prod(i, false, &mut neg, &mut fs); fs.sort();
+            if fs.len() == 1 && !fs[0].0 { (neg, fs[0].1) } else { (neg, cmk(CNode::Prod(fs))) }
+        }
+        Min(a, b) => { let mut xs = vec![canon(a), canon(b)]; xs.sort(); (false, cmk(CNode::App("min", xs))) }
+        Max(a, b) => { let mut xs = vec![canon(a), canon(b)]; xs.sort(); (false, cmk(CNode::App("max", xs))) }
+        Abs(a) => (false, cmk(CNode::App("abs", vec![(false, canon(a).1)]))),
+        Floor(a) => un("floor", &[a]), Ceil(a) => un("ceil", &[a]), Round(a) => un("round", &[a]),
+        Sqrt(a) => un("sqrt", &[a]), Exp(a) => un("exp", &[a]), Ln(a) => un("ln", &[a]),
+        // odd functions: the sign of the argument moves outside
+        Cbrt(a) => { let (n, c) = canon(a); (n, cmk(CNode::App("cbrt", vec![(false, c)]))) }
+        Sin(a) => { let (n, c) = canon(a); (n, cmk(CNode::App("sin", vec![(false, c)]))) }
+        Cos(a) => (false, cmk(CNode::App("cos", vec![(false, canon(a).1)]))),
+        Tan(a) => un("tan", &[a]), Asin(a) => un("asin", &[a]), Acos(a) => un("acos", &[a]), Atan(a) => un("atan", &[a]),
+        Atan2(a, b) => un("atan2", &[a, b]), Pow(a, b) => un("pow", &[a, b]),
+        // hypot(a, b) is sqrt(a*a + b*b) by definition
+        Hypot(a, b) => {
+            let (ca, cb) = (canon(a).1, canon(b).1);
+            let mut ts = vec![(false, cmk(CNode::Prod(vec![(false, ca), (false, ca)]))), (false, cmk(CNode::Prod(vec![(false, cb), (false, cb)])))];
+            ts.sort();
+            let sum = cmk(CNode::Sum(ts));
+            (false, cmk(CNode::App("sqrt", vec![(false, sum)])))
+        }
+        Ite(c, a, b) => un("ite", &[c, a, b]),
+        Lt(a, b) => un("lt", &[a, b]), Le(a, b) => un("le", &[a, b]),
+        Eq(a, b) => { let mut xs = vec![canon(a), canon(b)]; xs.sort(); (false, cmk(CNode::App("eq", xs))) }
+        And(a, b) => un("and", &[a, b]), Or(a, b) => un("or", &[a, b]), Not(a) => un("not", &[a]),
+    };
+    CANON.with(|c| c.borrow_mut().memo.insert(i, r));
+    r
+}
+pub fn ac_equal(a: Id, b: Id) -> bool { a == b || canon(a) == canon(b) }
+
 /// Decide a comparison in scalar mode: constants are evaluated, everything else follows the script
 /// (default: true) and is recorded in the trace as part of the path condition.
 pub fn decide(cond: Id) -> bool {
@@ -115,6 +200,12 @@ pub fn decide(cond: Id) -> bool {
         _ => {}
     }
     if let Some(v) = implied(cond) { return v; }
+    // the same question with re-ordered operands (AC-canonical form) keeps the outcome it already has on this path
+    let tr: Vec<(Id, bool)> = with(|a| a.trace.clone());
+    if !tr.iter().any(|(c, _)| *c == cond) {
+        let cc = canon(cond);
+        if let Some((_, o)) = tr.iter().find(|(c, _)| canon(*c) == cc) { return *o; }
+    }
     with(|a| {
         // a condition already decided on this path keeps its outcome
         if let Some((_, o)) = a.trace.iter().find(|(c, _)| *c == cond) { return *o; }
@@ -175,7 +266,7 @@ pub fn reset_run(script: Vec<bool>) {
         a.ensures.clear(); a.outputs.clear(); a.identical.clear(); a.fresh = 0;
     })
 }
-pub fn reset_all() { with(|a| { *a = Arena::default(); }) }
+pub fn reset_all() { with(|a| { *a = Arena::default(); }); canon_reset(); }
 
 fn esc(s: &str) -> String { s.replace('\\', "\\\\").replace('"', "\\\"") }
 
